@@ -349,3 +349,132 @@ func VH_C07_ManyTypeInfos() {
 	}
 	vhReach("many-types-done")
 }
+
+// Inlined children of MIXED kinds in one register: each of 3→4 positions of a
+// parent array holds, by choice, an inlined array, an inlined plain map, or a
+// composite map of shape A {100,101} or shape B {100,102} (same-shaped
+// composites share one compact extra-data entry; arrays and plain maps get
+// entries of their own, interleaved with them). The register decodes back to
+// children of the same kinds, types and key/value content in the same order,
+// and encoding the decoded slab is a fixed point.
+//
+//vh:prop C07 C08
+//vh:init cbor
+//vh:param positions 3 4
+func VH_C07_MixedInlinedKinds() {
+	vhSetThreshold(1024)
+	storage := vhNewByteStorage()
+	addr := vhAddr(1)
+	npos := vhParam("positions", 3)
+	parent, _ := NewArray(storage, addr, vTypeInfo{id: 42})
+	kinds := make([]int, npos)
+	for i := range kinds {
+		kinds[i] = vhChoose("kind", 4)
+		val := uint64(10 * (i + 1))
+		switch kinds[i] {
+		case 0:
+			a, _ := NewArray(storage, addr, vTypeInfo{id: 50})
+			_ = a.Append(vU64(val))
+			_ = parent.Append(a)
+		case 1:
+			m, _ := NewMap(storage, addr, NewDefaultDigesterBuilder(), vTypeInfo{id: 51})
+			_, _ = m.Set(vhCompareBK, vhHipB, vBKey{val: 100}, vU64(val))
+			_ = parent.Append(m)
+		case 2, 3:
+			m, _ := NewMap(storage, addr, NewDefaultDigesterBuilder(), vCompositeTypeInfo{id: 7})
+			second := uint64(101)
+			if kinds[i] == 3 {
+				second = 102
+			}
+			_, _ = m.Set(vhCompareBK, vhHipB, vBKey{val: 100}, vU64(val))
+			_, _ = m.Set(vhCompareBK, vhHipB, vBKey{val: second}, vU64(val+1))
+			_ = parent.Append(m)
+		}
+	}
+	root := parent.root
+	vhAssert(root.IsData(), "single slab")
+	b1, err := EncodeSlab(root, storage.cborEncMode)
+	vhAssert(err == nil, "encode")
+	if err != nil {
+		return
+	}
+	s2, derr := DecodeSlab(root.SlabID(), b1, storage.cborDecMode, vhDecodeStorableB, vhDecodeTypeInfo)
+	vhAssert(derr == nil, "a register produced by the library decodes")
+	if derr != nil {
+		return
+	}
+	ds, ok := s2.(*ArrayDataSlab)
+	vhAssert(ok && len(ds.elements) == npos, "decoded element count")
+	if !ok || len(ds.elements) != npos {
+		return
+	}
+	field := func(m *MapDataSlab, key uint64) (uint64, bool) {
+		he, ok := m.elements.(*hkeyElements)
+		if !ok {
+			return 0, false
+		}
+		for _, el := range he.elems {
+			se, ok := el.(*singleElement)
+			if !ok {
+				continue
+			}
+			if k, ok := se.key.(vU64); ok && uint64(k) == key {
+				v, ok := se.value.(vU64)
+				return uint64(v), ok
+			}
+		}
+		return 0, false
+	}
+	for i, kd := range kinds {
+		val := uint64(10 * (i + 1))
+		switch kd {
+		case 0:
+			c, ok := ds.elements[i].(*ArrayDataSlab)
+			vhAssert(ok, "position decodes as an inlined array")
+			if ok {
+				vhAssert(vhTic(c.extraData.TypeInfo, vTypeInfo{id: 50}), "inlined array keeps its type")
+				vhAssert(len(c.elements) == 1 && vhStorableEqual(c.elements[0], vU64(val)), "inlined array keeps its content")
+			}
+		case 1:
+			c, ok := ds.elements[i].(*MapDataSlab)
+			vhAssert(ok, "position decodes as an inlined map")
+			if ok {
+				vhAssert(vhTic(c.extraData.TypeInfo, vTypeInfo{id: 51}), "inlined map keeps its type")
+				got, has := field(c, 100)
+				vhAssert(has && got == val && c.extraData.Count == 1, "inlined map keeps its content")
+			}
+		case 2, 3:
+			c, ok := ds.elements[i].(*MapDataSlab)
+			vhAssert(ok, "position decodes as an inlined composite map")
+			if ok {
+				vhAssert(vhTic(c.extraData.TypeInfo, vCompositeTypeInfo{id: 7}), "composite map keeps its type")
+				second := uint64(101)
+				if kd == 3 {
+					second = 102
+				}
+				g1, h1 := field(c, 100)
+				g2, h2 := field(c, second)
+				vhAssert(h1 && g1 == val && h2 && g2 == val+1 && c.extraData.Count == 2, "composite map keeps its fields and values")
+			}
+		}
+	}
+	// encoding the decoded slab is a fixed point
+	b2, err2 := EncodeSlab(s2, storage.cborEncMode)
+	vhAssert(err2 == nil, "re-encode")
+	if err2 == nil {
+		s3, derr3 := DecodeSlab(root.SlabID(), b2, storage.cborDecMode, vhDecodeStorableB, vhDecodeTypeInfo)
+		vhAssert(derr3 == nil, "re-encoded register decodes")
+		if derr3 == nil {
+			b3, err3 := EncodeSlab(s3, storage.cborEncMode)
+			vhAssert(err3 == nil && len(b3) == len(b2), "fixed point: length")
+			if err3 == nil && len(b3) == len(b2) {
+				same := true
+				for i := range b2 {
+					same = vhAll(same, b2[i] == b3[i])
+				}
+				vhAssert(same, "fixed point: bytes")
+			}
+		}
+	}
+	vhReach("mixed-kinds-done")
+}
